@@ -286,6 +286,10 @@ def Plan.wellScoped (st : Store) : Plan → Bool
 def fromPlan : From → Plan
   | .table t => .scan t
   | .join k l r on => .join k on (fromPlan l) (fromPlan r)
+  | .derived f w items =>
+    .project items (match w with
+      | none => fromPlan f
+      | some e => .filter e (fromPlan f))
 
 /-- FROM → WHERE → projection -/
 def boundPlan (q : Select) : Plan :=
